@@ -142,7 +142,7 @@ def version_refusal(s):
     return None
 
 
-def check_validate(ctx, node):
+def check_validate(ctx, node, prim_fields=()):
     """`self.validate()` inside read/write is accepted when validate() can only raise TypeError
     (type checks on the attributes: never triggered by objects the reader itself constructed)."""
     import textwrap
@@ -172,7 +172,9 @@ def check_validate(ctx, node):
                 todo.append(_self_attr(n.func))
             if isinstance(n, ast.Call) and isinstance(n.func, ast.Attribute) and n.func.attr in ('validate',) \
                     and not _self_attr(n.func):
-                raise ctx.err(node, 'validate() delegates to another object')
+                tgt = _self_attr(n.func.value)
+                if tgt is None or tgt.lstrip('_') not in prim_fields:
+                    raise ctx.err(node, 'validate() delegates to an object that is not one of its primitive items')
 
 
 def copy_node(n):
@@ -263,6 +265,7 @@ class ReadWalker:
         self.flags = set()
         self.pending = {}           # constructed, not yet read (old style: construct all, then read all)
         self.attr_of = {}           # field -> raw attribute name on self
+        self.rebind = None          # index of the ProtocolVersion item kmip_version is rebound from
         self.minver = None          # class-level refusal `if kmip_version < V: raise VersionNotSupported`
 
     # -- recognisers
@@ -611,6 +614,19 @@ class ReadWalker:
                 else:
                     raise self.ctx.err(ap, 'append target not understood: %s' % _dump(lst))
                 continue
+            # kmip_version = contents.protocol_version_to_kmip_version(self.protocol_version): the rest of the structure is
+            # decoded under the version its own ProtocolVersion item announces.  Accepted as an idiom (flag `rebind`): the
+            # schema is tied only for inputs whose announced version is the version passed in (harness projection).
+            if top and isinstance(s, ast.Assign) and len(s.targets) == 1 and _is_name(s.targets[0], 'kmip_version') \
+                    and isinstance(s.value, ast.Call) and getattr(s.value.func, 'attr', getattr(s.value.func, 'id', None)) == 'protocol_version_to_kmip_version' \
+                    and len(s.value.args) == 1 and not s.value.keywords and _self_attr(s.value.args[0]):
+                ks = self.decoded_fields_in([s.value.args[0]])
+                if len(ks) == 1 and self.items[ks[0]]['kind'] == ('struct', 'ProtocolVersion') and self.items[ks[0]]['mult'] == 'Req' \
+                        and ks[0] == len(self.items) - 1 and self.rebind is None:
+                    self.rebind = ks[0]
+                    self.flags.add('rebind')
+                    continue
+                raise self.ctx.err(s, 'kmip_version rebound from something other than the ProtocolVersion item just decoded')
             # the class of the next item chosen from an earlier item (attribute value by name, payload by operation, ...)
             if isinstance(s, ast.Assign) and self.decoded_fields_in([s.value]) and not self.touches_stream([s]):
                 nxt = self.try_dispatch_span(stmts, i - 1, guard)
@@ -691,7 +707,7 @@ class ReadWalker:
                 continue
             if top and isinstance(s, ast.Expr) and isinstance(s.value, ast.Call) and _self_attr(s.value.func) == 'validate' \
                     and not s.value.args and not s.value.keywords:
-                check_validate(self.ctx, s)
+                check_validate(self.ctx, s, {it['field'] for it in self.items if it['kind'][0] in ('prim', 'enum')})
                 self.flags.add('validate')
                 continue
             if isinstance(s, ast.Expr) and isinstance(s.value, ast.Call) and _self_attr(s.value.func) == 'is_oversized':
@@ -800,6 +816,7 @@ class WriteWalker:
         self.flags = set()
         self.minver = None
         self.nonempty = set()   # fields guarded by `if len(self._xs) == 0: raise`
+        self.key_required = {}  # dispatched field -> fields whose absence makes write() raise before emitting it
 
     def write_call(self, s, buf=None):
         """`<target>.write(buf, kmip_version=kmip_version)` -> target node"""
@@ -901,9 +918,19 @@ class WriteWalker:
                 if style in ('truthy_value', 'truthy_other'):
                     raise self.ctx.err(s, 'presence of %s is tested on its Python VALUE (`if self.%s:`): a field holding 0 / False / an empty '
                                           'string would be silently dropped; not expressible' % (field, _dump(s.test)))
-                if len(s.body) != 1:
-                    raise self.ctx.err(s, 'presence test guards %d statements, expected one write' % len(s.body))
-                b = s.body[0]
+                body = list(s.body)
+                # `if self.<key> is None: raise` in front of the write of a dispatched item (payload without operation):
+                # the schema writer refuses the same values (a dispatched item present while its key is absent)
+                if len(body) == 2 and isinstance(body[0], ast.If) and not body[0].orelse and len(body[0].body) == 1 \
+                        and isinstance(body[0].body[0], ast.Raise) and isinstance(body[0].test, ast.Compare) \
+                        and len(body[0].test.ops) == 1 and isinstance(body[0].test.ops[0], ast.Is) \
+                        and isinstance(body[0].test.comparators[0], ast.Constant) and body[0].test.comparators[0].value is None \
+                        and self.ctx.field_of(body[0].test.left):
+                    self.key_required.setdefault(field, set()).add(self.ctx.field_of(body[0].test.left)[0])
+                    body = body[1:]
+                if len(body) != 1:
+                    raise self.ctx.err(s, 'presence test guards %d statements, expected one write' % len(body))
+                b = body[0]
                 fl = self.for_loop(b)
                 wc = None if fl else self.write_call(b)
                 if fl:
@@ -1090,9 +1117,12 @@ def translate_class(ctx, kinds):
                 raise Untranslatable(ctx.file, it['line'], '%s: the key %s of the dispatched item %s is not written exactly once' % (ctx.name, by['key_field'], it['field']))
             by['ix'] = pos[0]
             wi['by'] = by
+        for kf in w.key_required.get(it['field'], ()):
+            if not bys or bys[0]['key_field'] != kf:
+                raise Untranslatable(ctx.file, it['line'], '%s: write() refuses %s when %s is absent, which is not its dispatch key' % (ctx.name, it['field'], kf))
         wr_items.append(wi)
     return {'name': ctx.name, 'module': ctx.mod.__name__, 'file': ctx.file,
-            'rd': r.items, 'wr': wr_items, 'oversize': r.oversize, 'minver': minver,
+            'rd': r.items, 'wr': wr_items, 'oversize': r.oversize, 'minver': minver, 'rebind': r.rebind,
             'flags': sorted(r.flags | w.flags),
             'read_line': rdef.lineno, 'write_line': wdef.lineno}
 
@@ -1304,13 +1334,13 @@ def render_json(t):
     used_enums = used_enum_names(t)
     def cj(c):
         return {'name': c['name'], 'module': c['module'], 'file': c['file'], 'default_tag': c['default_tag'],
-                'oversize': c['oversize'], 'minver': c['minver'], 'flags': c['flags'], 'read_line': c['read_line'],
+                'oversize': c['oversize'], 'minver': c['minver'], 'rebind': c.get('rebind'), 'flags': c['flags'], 'read_line': c['read_line'],
                 'write_line': c['write_line'],
                 'rd': [{k: (list(v) if k == 'kind' else v) for k, v in i.items()} for i in c['rd']],
                 'wr': [{k: (list(v) if k == 'kind' else v) for k, v in i.items()} for i in c['wr']]}
     doc = {
         'classes': [{'name': c['name'], 'module': c['module'], 'file': c['file'], 'default_tag': c['default_tag'],
-                     'oversize': c['oversize'], 'minver': c['minver'], 'flags': c['flags'], 'read_line': c['read_line'], 'write_line': c['write_line'],
+                     'oversize': c['oversize'], 'minver': c['minver'], 'rebind': c.get('rebind'), 'flags': c['flags'], 'read_line': c['read_line'], 'write_line': c['write_line'],
                      'rd': [{k: (list(v) if k == 'kind' else v) for k, v in i.items()} for i in c['rd']],
                      'wr': [{k: (list(v) if k == 'kind' else v) for k, v in i.items()} for i in c['wr']]}
                     for c in t['classes']],
